@@ -1127,7 +1127,8 @@ func main() {
 			}
 		}
 	case "churn":
-		churn(tr, *churnDur, 25)
+		churn(tr, *churnDur/2, 25)
+		churnDgram(tr, *churnDur/2, 15)
 	default:
 		hx.Fatal("unknown mode")
 	}
